@@ -398,6 +398,7 @@ pub fn c10_case(ctx: &mut Ctx, tape: &[u8]) -> CaseResult {
     focus.certs = 90;
     focus.assets = 20;
     focus.max_ops = 18;
+    focus.re_register = true;
     let o = match built_tx(ctx, tape, focus) {
         Some(o) => o,
         None => {
@@ -622,6 +623,29 @@ pub fn c16_rebuild_case(ctx: &mut Ctx, tape: &[u8]) -> CaseResult {
                         ensure!(cbor::canonical_key_cmp(w[0], w[1]) == std::cmp::Ordering::Less, "rebuild/mint-asset-names-not-canonical", "{}", describe(&o));
                     }
                 }
+            }
+        }
+    }
+    // everything set-typed the builder emits holds each element once (scripts and datums included)
+    if let Ok(d) = cbor::parse_document(&first) {
+        if let Some(items) = d.as_array() {
+            let mut fields: Vec<(&str, u64, &Node)> = Vec::new();
+            for k in [0u64, 4, 13, 14, 18, 20] {
+                if let Some(n) = items[0].map_get(k) {
+                    fields.push(("body", k, n));
+                }
+            }
+            for k in [0u64, 1, 2, 3, 4, 6, 7] {
+                if let Some(n) = items[1].map_get(k) {
+                    fields.push(("witness_set", k, n));
+                }
+            }
+            for (part, k, n) in fields {
+                let els: Vec<&[u8]> = set_items(n).iter().map(|x| &first[x.start..x.end]).collect();
+                let mut u = els.clone();
+                u.sort();
+                u.dedup();
+                ensure!(u.len() == els.len(), format!("rebuild/element-emitted-twice/{}-key{}", part, k), "{} field {} holds {} elements, {} distinct; {}", part, k, els.len(), u.len(), describe(&o));
             }
         }
     }
